@@ -10,17 +10,28 @@ SRC = ["h/h_c18.c"]
 
 
 def build(ck):
-    return {"h_c18": ck.harness("h_c18", SRC)}
+    exe = ck.harness("h_c18", SRC)
+    cases_file("quick")          # replay files refer to the case list by path
+    if ck.tier != "quick":
+        cases_file(ck.tier)
+    return {"h_c18": exe}
 
 
 def cases_file(tier):
+    """the case list of a tier, (re)generated when missing or older than the generator; kept, because replay files name it"""
     d = os.path.join(vlib.B.BUILD, "scratch")
     os.makedirs(d, exist_ok=True)
-    path = os.path.join(d, "c18-cases-%s-%d.txt" % (tier, os.getpid()))
-    with open(path, "w") as f:
-        r = subprocess.run([sys.executable, os.path.join(vlib.VERIF, "gen", "c18.py"), tier], stdout=f, stderr=subprocess.PIPE, text=True)
+    path = os.path.join(d, "c18-cases-%s.txt" % tier)
+    gen = os.path.join(vlib.VERIF, "gen", "c18.py")
+    if os.path.exists(path) and os.path.getmtime(path) >= os.path.getmtime(gen):
+        return path
+    tmp = path + ".%d.tmp" % os.getpid()
+    with open(tmp, "w") as f:
+        r = subprocess.run([sys.executable, gen, tier], stdout=f, stderr=subprocess.PIPE, text=True)
     if r.returncode:
+        os.unlink(tmp)
         raise SystemExit("gen/c18.py failed: " + r.stderr[-2000:])
+    os.replace(tmp, path)
     vlib.log(r.stderr.strip())
     return path
 
@@ -43,13 +54,9 @@ ASSUMPTIONS = ["frames of anonymous functions / functionals are named <function>
 def run(ck):
     exe = build(ck)["h_c18"]
     cf = cases_file(ck.tier)
-    try:
-        dl = 150 if ck.tier == "quick" else 1500
-        ck.enum(exe, ["--cases=" + cf], "handler", batch=40, deadline_s=dl, timeout_ms=20000, jobs=16)
-        ck.enum(exe, ["--cases=" + cf, "--no-handler=1"], "printed", batch=40, deadline_s=dl // 2, timeout_ms=20000, jobs=16)
-    finally:
-        if not os.environ.get("VERIF_KEEP_CASES"):
-            os.unlink(cf)
+    dl = 150 if ck.tier == "quick" else 1500
+    ck.enum(exe, ["--cases=" + cf], "handler", batch=40, deadline_s=dl, timeout_ms=20000, jobs=16)
+    ck.enum(exe, ["--cases=" + cf, "--no-handler=1"], "printed", batch=40, deadline_s=dl // 2, timeout_ms=20000, jobs=16)
     ck.finish(vlib.enum_coverage(ck.parts, RULE, "errors_raised",
                                  extra={"frames_compared": sum(p.get("counters", {}).get("frames_compared", 0) for p in ck.parts),
                                         "loaded_from_binary": sum(p.get("counters", {}).get("loaded_from_binary", 0) for p in ck.parts),
@@ -61,14 +68,11 @@ def selftest(ck):
     exe = build(ck)["h_c18"]
     cf = cases_file("quick")
     bad = 0
-    try:
-        for st, want in ((1, "C18:handler-line-wrong"), (2, "C18:trace-function-wrong")):
-            ck2 = vlib.Check("C18", "quick", 0, LEVEL)
-            ck2.enum(exe, ["--cases=" + cf, "--selftest=%d" % st, "--to=400"], "selftest%d" % st, batch=40, timeout_ms=20000, jobs=8)
-            if not any(k.startswith(want) for k in ck2.fails):
-                print("SELFTEST-FAILED C18 variant %d: expected %s*, got %s" % (st, want, sorted(ck2.fails)[:5])); bad = 1
-            else:
-                print("selftest %d ok: %s" % (st, [k for k in ck2.fails if k.startswith(want)][:2]))
-    finally:
-        os.unlink(cf)
+    for st, want in ((1, "C18:handler-line-wrong"), (2, "C18:trace-function-wrong")):
+        ck2 = vlib.Check("C18", "quick", 0, LEVEL)
+        ck2.enum(exe, ["--cases=" + cf, "--selftest=%d" % st, "--from=2700"], "selftest%d" % st, batch=40, timeout_ms=20000, jobs=8)
+        if not any(k.startswith(want) for k in ck2.fails):
+            print("SELFTEST-FAILED C18 variant %d: expected %s*, got %s" % (st, want, sorted(ck2.fails)[:5])); bad = 1
+        else:
+            print("selftest %d ok: %s" % (st, [k for k in ck2.fails if k.startswith(want)][:2]))
     return bad
